@@ -171,7 +171,7 @@ pub fn run(tier: Tier) -> i32 {
     let n_ok = AtomicU64::new(0);
     let n_err = AtomicU64::new(0);
     let images: Mutex<BTreeSet<Vec<u8>>> = Mutex::new(BTreeSet::new());
-    let maxlen = if tier.thorough() { 4 } else { 3 };
+    let maxlen = if tier.thorough() { 5 } else { 4 };
 
     let check = |seg: Seg, lines: Vec<String>, expect: Option<Vec<u8>>, keyhint: String, extra_ram: u32| {
         let src = program(seg, &lines);
@@ -259,7 +259,7 @@ pub fn run(tier: Tier) -> i32 {
     let mut seqs: Vec<Vec<usize>> = vec![];
     {
         let mut frontier: Vec<Vec<usize>> = vec![vec![]];
-        for _ in 0..(if tier.thorough() { 4 } else { 3 }) {
+        for _ in 0..(if tier.thorough() { 6 } else { 4 }) {
             let mut next = vec![];
             for s in &frontier {
                 for i in 0..items.len() {
@@ -321,7 +321,7 @@ pub fn run(tier: Tier) -> i32 {
     let coverage = cov(json!({
         "evaluations": evals.load(Ordering::Relaxed),
         "distinct_nontrivial": nimg,
-        "rule": "4 directives x every operand list of length 1..3 (thorough 4) over a 17-symbol alphabet (0, 1, 0x7f, width max, max+1, -1, width min, min-1, .equ symbol, forward label, expression, \"\", \"a\", \"ab\", \"a,b;c\", \"é\", a string with backslashes) x {cseg, eseg, dseg}; plus every sequence of <=3 (thorough 4) lines over {odd .db, 5-byte .db, even .db, .dw, .dd, .dq, .byte 1, .byte 3} in each segment; distinct_nontrivial = distinct non-empty-or-empty expected images that were confirmed",
+        "rule": "4 directives x every operand list of length 1..4 (thorough 5) over a 17-symbol alphabet (0, 1, 0x7f, width max, max+1, -1, width min, min-1, .equ symbol, forward label, expression, \"\", \"a\", \"ab\", \"a,b;c\", \"é\", a string with backslashes) x {cseg, eseg, dseg}; plus every sequence of <=4 (thorough 6) lines over {odd .db, 5-byte .db, even .db, .dw, .dd, .dq, .byte 1, .byte 3} in each segment; distinct_nontrivial = distinct non-empty-or-empty expected images that were confirmed",
         "exhaustive": true,
         "operand_lists": n_lists,
         "line_sequences": n_seqs,
